@@ -78,7 +78,9 @@ func New(tag string) (*Pipe, error) {
 	_ = os.MkdirAll(filepath.Join(p.CorpusDir, "ext", "config"), 0o755)
 	_ = os.WriteFile(filepath.Join(p.CorpusDir, "ext", "config", "config.go"), []byte("package config\n\ntype Config struct{ Port int }\n\ntype Box[T any] struct{ V T }\n"), 0o644)
 	_ = os.MkdirAll(filepath.Join(p.CorpusDir, "ext", "extapp"), 0o755)
-	_ = os.WriteFile(filepath.Join(p.CorpusDir, "ext", "extapp", "app.go"), []byte("package extapp\n\nimport \"verifcorpus/ext/config\"\n\ntype Server struct{ C *config.Config }\n\nfunc NewServer(c *config.Config) *Server { return &Server{C: c} }\n\nfunc LoadConfig() *config.Config { return &config.Config{} }\n\nfunc NewBoxed(b config.Box[*config.Config]) *Server { return &Server{C: b.V} }\n"), 0o644)
+	_ = os.WriteFile(filepath.Join(p.CorpusDir, "ext", "extapp", "app.go"), []byte("package extapp\n\nimport (\n\t\"verifcorpus/ext/config\"\n\t\"verifcorpus/ext/max\"\n)\n\ntype Server struct{ C *config.Config }\n\nfunc NewServer(c *config.Config) *Server { return &Server{C: c} }\n\nfunc LoadConfig() *config.Config { return &config.Config{} }\n\nfunc NewBoxed(b config.Box[*config.Config]) *Server { return &Server{C: b.V} }\n\nfunc LoadLimit() *max.Limit { return &max.Limit{} }\n\nfunc NewLimited(l *max.Limit) *Server { return &Server{} }\n"), 0o644)
+	_ = os.MkdirAll(filepath.Join(p.CorpusDir, "ext", "max"), 0o755)
+	_ = os.WriteFile(filepath.Join(p.CorpusDir, "ext", "max", "max.go"), []byte("package max\n\ntype Limit struct{ N int }\n"), 0o644)
 	seed := "package seed\n\nimport (\n\t_ \"verifcorpus/ext/extapp\"\n\t_ \"bytes\"\n\t_ \"strings\"\n\t_ \"text/template\"\n\t_ \"html/template\"\n\t_ \"context\"\n\t_ \"github.com/mazrean/kessoku\"\n\t_ \"golang.org/x/sync/errgroup\"\n)\n"
 	_ = os.MkdirAll(filepath.Join(p.CorpusDir, "seed"), 0o755)
 	_ = os.WriteFile(filepath.Join(p.CorpusDir, "seed", "seed.go"), []byte(seed), 0o644)
